@@ -10,6 +10,7 @@ pub mod datalog;
 pub mod keycodec;
 pub mod schema;
 pub mod params;
+pub mod chain;
 pub mod expr;
 
 /// SplitMix64: every random choice of a run derives from one state.
